@@ -58,6 +58,15 @@ def derive_ops(img_bytes):
     ops.append("inode %d" % ((last_blk << 16) | 8191))            # offset beyond the (partial) last block's data
     ops.append("inode %d" % ((0x7FFFFFF << 16) | 0))              # block outside the table
     ops.append("inode %d" % (((refs[len(refs) // 2] >> 16) << 16) | 8190))   # valid block, offset in the middle of some inode
+    # a reference whose block header lies in the last bytes of the inode table: the header is readable, the block it announces ends beyond the table
+    itab_size = sb["dir_table"] - sb["inode_table"]
+    ops.append("inode %d" % ((itab_size - 2) << 16))
+    ops.append("inode %d" % ((itab_size - 1) << 16))
+    # the last inode that starts in the first metadata block (it usually continues in the next block): reading it runs across the block boundary
+    blk0 = min(r >> 16 for r in refs)
+    in0 = [r for r in refs if (r >> 16) == blk0]
+    if len(set(r >> 16 for r in refs)) > 1:
+        ops.append("inode %d" % max(in0))
     ops.append("readdir %d" % t[dirs[0]]["ref"])
     ops.append("readdir %d" % t[b""]["ref"])
     deep = max(t, key=lambda p: p.count(b"/"))
